@@ -22,8 +22,8 @@ FUNCTIONS = ["run_grid.run (serial, data_k_class= shell, K-points in a symbolic 
              "tabulate.Tabulator.__call__", "tabulate.TabulatorAll.__init__/__call__", "TABresult.__init__/__add__/__mul__/__truediv__/transform/find_grid/to_grid/self_to_grid/savedata/get_data",
              "K__Result.__add__/to_grid/transform/get_component/get_component_list", "kbandresult.get_component", "ResultDict.__add__/__mul__/transform",
              "PointGroup.symmetrize", "evaluate_k.evaluate_k"]
-BOUNDS = dict(quick=dict(grid="dense grids up to 3x2x2, every factorisation NKdiv*NKFFT with <= 4 K-point batches (all arrival orders, <= 24), "
-                              "batches 6: all rotations of the list order and their reversals", nb="2..3 with band selections", rank="0..2 (components up to rank 3)",
+BOUNDS = dict(quick=dict(grid="dense grids up to 3x2x2 and 7x1x1, 1x9x1, every factorisation NKdiv*NKFFT with <= 4 K-point batches (all arrival orders, <= 24), "
+                              "5..9 batches: all rotations of the list order and their reversals", nb="2..3 with band selections", rank="0..2 (components up to rank 3)",
                          values="one symbolic real atom per (grid point, band, tensor component)", symmetry="none; inversion / time reversal with symmetric symbolic values on 2x2x1, 3x2x1"),
               thorough=dict(grid="as quick up to 3x2x2 / 4x2x1, <= 5 batches all orders (120), 6 and 12 batches: rotations and reversals", nb="2..3", rank="0..3",
                             values="as quick", symmetry="as quick + 2x2x2, 4x1x1, C2z on 2x2x1"))
@@ -359,12 +359,13 @@ def _cases(tier, seed):
     q = tier == "quick"
     out = []
     maxall = 4 if q else 5
-    grids = [((2, 2, 1), 2, 1), ((3, 2, 2), 2, 0), ((1, 2, 3), 3, 2), ((2, 1, 2), 2, 1)] + ([] if q else [((4, 2, 1), 2, 1), ((2, 2, 2), 2, 3), ((3, 1, 3), 3, 1)])
+    # 7 and 9 = 3x3 points along an axis: the k-points (ix/FFT + K/FFT) % 1 come out one ulp below a grid node, so on-grid rounding matters
+    grids = [((2, 2, 1), 2, 1), ((3, 2, 2), 2, 0), ((1, 2, 3), 3, 2), ((2, 1, 2), 2, 1), ((7, 1, 1), 2, 0), ((1, 9, 1), 2, 1)] + ([] if q else [((4, 2, 1), 2, 1), ((2, 2, 2), 2, 3), ((3, 1, 3), 3, 1)])
     first = True
     for dense, nb, rank in grids:
         for div, fft in factorisations(dense):
             nbatch = int(np.prod(div))
-            if nbatch > (6 if q else 12):
+            if nbatch > (9 if q else 12):
                 continue
             mode = "all" if nbatch <= maxall else "rotations"
             ib = None if (sum(div) + rank) % 2 else ([nb - 1, 0] if nb > 2 else [1])
